@@ -288,6 +288,30 @@ def string_position_programs():
     return out
 
 
+def modifier_order_programs():
+    """a call's using block with two or three of the modifiers in every order (the compiled tree
+    keeps the block's entries and also sets the flags of the call)"""
+    import itertools
+    vals = {"local": ["true"], "volatile": ["true", "false"], "preflight": ["true"], "disabled": ["self.d"]}
+    out = []
+    for n in (2, 3):
+        for perm in itertools.permutations(sorted(vals), n):
+            if "preflight" in perm and ("disabled" in perm or "volatile" in perm):
+                continue    # refused by the compiler
+            for choice in itertools.product(*[vals[m] for m in perm]):
+                block = "".join("        %s = %s,\n" % (m, v) for m, v in zip(perm, choice))
+                if "preflight" in perm:
+                    callee, ret = "CHK", "B.y"
+                else:
+                    callee, ret = "S", "A.y"
+                src = ("stage S(\n    in  int x,\n    out int y,\n    src py \"s\",\n)\n\nstage CHK(\n    in  int x,\n    src py \"c\",\n)\n\n"
+                       "pipeline P(\n    in  int x,\n    in  bool d,\n    out int y,\n)\n{\n    call %s as A(\n        x = self.x,\n    ) using (\n%s    )\n\n"
+                       "    call S as B(\n        x = self.x,\n    ) using (\n        disabled = self.d,\n    )\n\n    return (\n        y = %s,\n    )\n}\n\n"
+                       "call P(\n    x = 1,\n    d = false,\n)\n" % (callee, block, ret))
+                out.append({"id": "mods:%s:%s" % ("-".join(perm), "-".join(choice)), "files": {"p.mro": src}, "top": "p.mro"})
+    return out
+
+
 def every_line(src, tag):
     """the source with one comment inserted before each line in turn (and at the end)"""
     lines = src.split("\n")
@@ -308,6 +332,7 @@ def corpus(tier, repo="/repo"):
         out.append({"id": "hand%d" % i, "files": {"p.mro": s}, "top": "p.mro"})
     out += resource_programs()
     out += string_position_programs()
+    out += modifier_order_programs()
     out += include_graphs()
     out += repo_sets(repo)
     progs = shapes.catalogue() + fshapes.catalogue() + [gen.gen_program(s) for s in range(20 if tier == "quick" else 200)]
